@@ -1,7 +1,7 @@
 #!/bin/bash
 # run every registered check once (quick by default) and summarise; usage: scripts/run_all.sh [quick|thorough]
 TIER=${1:-quick}
-cd /verif
+cd "$(dirname "$0")/.."
 for p in $(python3 -c "import json; print(' '.join(c['property_id'] for c in json.load(open('MANIFEST.json'))['checks']))"); do
   s=$(date +%s); out=$(scripts/check.sh $p --tier $TIER 2>/dev/null); code=$?; e=$(date +%s)
   echo "$p exit=$code $((e-s))s $(echo "$out" | grep -v '^KNOWN-FINDING' | tail -1 | cut -c1-220)"
